@@ -45,7 +45,7 @@ TECHNIQUE = "runtime monitoring: pin/reachability oracle over generated componen
 TEXT = "BUG-7"
 
 
-def gen_comp(rng):
+def gen_comp(rng, name="comp"):
     m = rng.randint(2, 9)
     commits = {}
     base = 1_600_000_000
@@ -55,7 +55,7 @@ def gen_comp(rng):
     prev = None
     for cid in range(1, m + 1):
         msg = "BUG-7 c%d" % cid if rng.random() < 0.5 else "misc"
-        commits[cid] = mg.Commit("comp", cid, [prev] if prev else [], msg, base + cid * 60, {})
+        commits[cid] = mg.Commit(name, cid, [prev] if prev else [], msg, base + cid * 60, {})
         prev = commits[cid]
         if rng.random() < 0.6:
             bn += 1
@@ -68,19 +68,20 @@ def gen_comp(rng):
         k = rng.randint(1, 4)
         for cid in range(m + 1, m + k + 1):
             msg = "BUG-7 c%d" % cid if rng.random() < 0.5 else "misc"
-            commits[cid] = mg.Commit("comp", cid, [prev], msg, base + cid * 60, {})
+            commits[cid] = mg.Commit(name, cid, [prev], msg, base + cid * 60, {})
             prev = commits[cid]
             if rng.random() < 0.6:
                 bn += 1
                 tags[f"build_{bn}_release_10_30_success"] = cid
         heads["origin/release/10.30"] = m + k
-    return mg.Repo("comp", commits, heads, tags), versions
+    return mg.Repo(name, commits, heads, tags), versions
 
 
-def gen_parent(rng, versions):
+def gen_parent(rng, versions, versions2=None):
     n = rng.randint(2, 12)
     commits = {}
     pins = {}
+    pins2 = {}
     base = 1_600_000_000 + 1000
     ids = list(range(1, n + 1))
     for cid in ids:
@@ -96,8 +97,13 @@ def gen_parent(rng, versions):
         pin = min(len(versions) - 1, lo + rng.choice([0, 0, 1, 1, 2, 3]))
         pins[cid] = pin
         v = versions[pin][1]
+        depends = {"comp": "%d.%d.%d" % v}
+        if versions2:
+            lo2 = max([pins2[p] for p in ps], default=0)
+            pins2[cid] = min(len(versions2) - 1, lo2 + rng.choice([0, 0, 1, 1, 2]))
+            depends["comp2"] = "%d.%d.%d" % versions2[pins2[cid]][1]
         commits[cid] = mg.Commit("par", cid, [commits[p] for p in ps], msg, base + cid * 60,
-                                 {"DEPENDS": json.dumps({"comp": "%d.%d.%d" % v})})
+                                 {"DEPENDS": json.dumps(depends)})
     names = rng.sample(["origin/release/5.4", "origin/release/5.10", "origin/release/5.5", "origin/master"],
                        rng.randint(1, 3))
     heads = {nm: (rng.choice(ids[-(n // 2 + 1):]) if rng.random() < 0.8 else rng.choice(ids)) for nm in names}
@@ -107,24 +113,40 @@ def gen_parent(rng, versions):
         if rng.random() < 0.4:
             bn += 1
             tags[f"build_{bn}_release_5_{rng.randint(0, 9)}_success"] = cid
-    return mg.Repo("par", commits, heads, tags), pins
+    return mg.Repo("par", commits, heads, tags), pins, pins2
 
 
-def judge_a(ctx, comp, par, versions, pins, reverse_order, case):
+def judge_a(ctx, comp, par, versions, pins, reverse_order, case, second=None, n_reports=1):
+    """second = (comp2 repo, versions2, pins2) when the parent pins two components"""
     ctx.evaluated()
-    order_in = [('par', mg.PRepo('par', par, 'origin')), ('comp', mg.TRepo('comp', comp, 'origin'))]
+    order_in = [('par', (mg.PRepo2 if second else mg.PRepo)('par', par, 'origin')),
+                ('comp', mg.TRepo('comp', comp, 'origin'))]
+    if second:
+        order_in.insert(1, ('comp2', mg.TRepo('comp2', second[0], 'origin')))
     if reverse_order:
         order_in.reverse()
     try:
         repos = ReposCollection(dict(order_in))
-        if list(repos.sorted_repos) != ['comp', 'par']:
-            ctx.violation("component-not-analysed-first", {"sorted_repos": list(repos.sorted_repos)}, case)
+        sr = list(repos.sorted_repos)
+        if sr[-1] != 'par' or sorted(sr) != sorted(n for n, _ in order_in):
+            ctx.violation("component-not-analysed-first", {"sorted_repos": sr}, case)
             return
-        data = dict(repos.make_reports_data(TEXT))
+        for _ in range(n_reports):
+            # a long-lived collection is asked for reports several times: the last one is judged
+            data = dict(repos.make_reports_data(TEXT))
+        if n_reports > 1:
+            ctx.count("reports_on_a_reused_collection")
     except Exception as err:
         ctx.violation("report-raises", {"type": type(err).__name__, "msg": str(err)[:200]}, case)
         return
-    crg, prg = data['comp'], data['par']
+    judge_component(ctx, data, 'comp', comp, par, versions, pins, case)
+    if second:
+        ctx.count("two_component_scenarios")
+        judge_component(ctx, data, 'comp2', second[0], par, second[1], second[2], case)
+
+
+def judge_component(ctx, data, cname, comp, par, versions, pins, case):
+    crg, prg = data[cname], data['par']
     order, exp = mg.branch_oracle(par)
     ptags = {}
     for tname, cid in par.tags.items():
@@ -328,12 +350,24 @@ def run_shard(ctx):
         if not versions:
             ctx.count("component_without_builds(skipped)")
             continue
-        par, pins = gen_parent(rng, versions)
+        second = None
+        versions2 = None
+        if rng.random() < 0.35:
+            comp2, versions2 = gen_comp(rng, "comp2")
+            if not versions2:
+                versions2 = None
+        par, pins, pins2 = gen_parent(rng, versions, versions2)
+        if versions2:
+            second = (comp2, versions2, pins2)
         rev = rng.random() < 0.5
+        n_reports = rng.choice([1, 1, 2, 3])
         case = {"kind": "histories", "comp": mg.describe(comp), "par": mg.describe(par),
                 "versions": [[c, list(v)] for c, v in versions], "pins": {str(k): v for k, v in pins.items()},
-                "reverse": rev}
-        judge_a(ctx, comp, par, versions, pins, rev, case)
+                "reverse": rev, "n_reports": n_reports}
+        if second:
+            case.update(comp2=mg.describe(comp2), versions2=[[c, list(v)] for c, v in versions2],
+                        pins2={str(k): v for k, v in pins2.items()})
+        judge_a(ctx, comp, par, versions, pins, rev, case, second, n_reports)
         if i < 2:
             ctx.sample({"component_tags": comp.tags, "component_branches": comp.branches,
                         "parent_pins(commit->version index)": case["pins"], "parent_tags": par.tags,
@@ -347,4 +381,9 @@ def replay(ctx, case):
         return
     versions = [(c, tuple(v)) for c, v in case["versions"]]
     pins = {int(k): v for k, v in case["pins"].items()}
-    judge_a(ctx, mg.rebuild(case["comp"]), mg.rebuild(case["par"]), versions, pins, case["reverse"], case)
+    second = None
+    if "comp2" in case:
+        second = (mg.rebuild(case["comp2"]), [(c, tuple(v)) for c, v in case["versions2"]],
+                  {int(k): v for k, v in case["pins2"].items()})
+    judge_a(ctx, mg.rebuild(case["comp"]), mg.rebuild(case["par"]), versions, pins, case["reverse"], case,
+            second, case.get("n_reports", 1))
